@@ -461,7 +461,9 @@ def _judge_maxiter(cx, obs, what, r, fa, L, ref):
         return
     obs.event("xc.maxiter.status")
     if not (r.iterations > L):
-        obs.violate("dlx.maxiter.status", f"[{what}] MAX_ITER reported with iterations={r.iterations} <= max_iter={L}")
+        # HEAD reports MAX_ITER through `iterations > max_iter`; a solver that tests its budget before counting never
+        # shows a counter above the limit.  The statement promises nothing about the counter: an event, not a verdict.
+        obs.event("xc.maxiter.counter-not-above-limit")
     if ref is not None and ref.status != _St.MAX_ITER and ref.iterations <= L:
         obs.violate("dlx.maxiter.spurious", f"[{what}] MAX_ITER with max_iter={L} although the unlimited run needs only "
                                             f"{ref.iterations} iterations")
